@@ -708,7 +708,10 @@ LOOKALIKE_WORDS = ['1e3', '2E5', '1.5e3', '-2e-3', '12e4567', 'NaN', 'nan', 'Inf
                    ',]', ', }', '[1, 2,]', '{"a": 1,}', '\\d{2,}', 'a{1, }', 'f(x)[1:,]', '/* c */', '// c', 'a //b', '\\', '\\n',
                    '\\u00e9', 'a\tb', ' lead', 'trail ', 'two  spaces', 'line1\nline2', 'ends\n', '\n', 'a\r\nb', '"', "'", "it's",
                    '""', '{', '}', '[', ']', ',', ':', '- ', '|', '>', '>-', '|+', 'NaN,', 'null,', 'true]', '"k": "v"', "{'a': 'b'}",
-                   '<!-- x -->', '${HOME}', '%(x)s', '{0}', '{{x}}', '\x00'.replace('\x00', 'nul?')]
+                   '<!-- x -->', '${HOME}', '%(x)s', '{0}', '{{x}}', '\x00'.replace('\x00', 'nul?'),
+                   # document markers / directives inside multi-line values
+                   'a\n---\nb', 'a\n...\nb', '---\nx', 'x\n---', '%YAML 1.1', 'a\n%TAG b', '--- |', '... ', 'k: |\n  v', '- a\n- b',
+                   '2001-12-14 21:59:43.10 -5', '2002-12-14', '12:30:45', '0:0', '!!binary aGk=', '!!python/name:os.system', '!!set {a}']
 
 
 NUMLIKE_WORDS = ['1e3', '2E5', '1.5e3', '-2e-3', '12e4567', 'NaN', 'Infinity', '-Infinity', '1e+3', '1E400', '0e0', '1e-7',
